@@ -662,6 +662,11 @@ def cc2(F, R):
             if a.body is b and b.dominates(a.site, site):
                 apps.append((a.site, a))
                 continue
+            un = a.d.get("unrolled")
+            if un is not None and a.body is b and isinstance(un[0], int) and b.dominates((un[0], 0), site) and un[3]:
+                # one of the copies of `for part in [x, y] { v.extend(part) }`: ordered by the element's position
+                apps.append(((un[0], un[1]), a))
+                continue
             # an append inside a loop that runs to its end before the result is built: unconditional in each iteration
             hdr = None
             for x in walk(a.args[1]) if len(a.args) > 1 else ():
@@ -673,7 +678,11 @@ def cc2(F, R):
                 apps.append(((hdr, 0), a))
             elif a.body is not b or b.reaches(a.site, site):
                 seq.append(("conditional-" + a.name, "unknown", a))
-        apps.sort(key=lambda sa: sum(1 for o in apps if o[0] != sa[0] and b.dominates(o[0], sa[0])))
+        def before(o, x):
+            if o[0][0] == x[0][0] and (o[1].d.get("unrolled") or x[1].d.get("unrolled")):
+                return o[0][1] < x[0][1]
+            return o[0] != x[0] and b.dominates((o[0][0], 0 if o[1].d.get("unrolled") else o[0][1]), (x[0][0], 0 if x[1].d.get("unrolled") else x[0][1]))
+        apps.sort(key=lambda sa: sum(1 for o in apps if o is not sa and before(o, sa)))
         for _, a in apps:
             if a.name not in ("extend_from_slice", "extend", "append", "push"):
                 seq.append((a.name, "unknown", a))
